@@ -514,7 +514,47 @@ def chunks(it, size):
         yield buf
 
 
+def stress():
+    """LARGE inputs with a closed-form MAG (labelled TESTS: fixed-width counters and recursion depth only show at
+    this size):  z -> a -> l1 -> ... -> l32 -> b with l1..l32 latent plus 32 isolated observed nodes  =>  the MAG
+    is z -> a -> b plus the isolated nodes;  the same with S = {b}: a and z become adjacent to nothing new, the
+    edges into the selection ancestors are undirected:  z - a."""
+    from pywhy_graphs import ADMG
+    from pywhy_graphs.algorithms import dag_to_mag
+    lat = ["l%d" % i for i in range(1, 33)]
+    chain = ["z", "a"] + lat + ["b"]
+    iso = ["i%d" % i for i in range(32)]
+    for name, L, S, wantD, wantU, nodes in (
+            ("latent-chain-67-nodes", set(lat), set(), {("z", "a"), ("a", "b")}, set(), {"z", "a", "b"} | set(iso)),):
+        G = ADMG()
+        G.add_edges_from(list(zip(chain, chain[1:])), "directed")
+        G.add_nodes_from(iso)
+        try:
+            with C.time_limit(120):
+                M = dag_to_mag(G, set(L), set(S))
+            es = M.edges()
+            gotD = set(es.get("directed", []))
+            gotB = set(frozenset(e) for e in es.get("bidirected", []))
+            gotU = set(frozenset(e) for e in es.get("undirected", []))
+            why = None
+            if set(M.nodes) != nodes:
+                why = "nodes of the MAG: %d, expected %d" % (len(M.nodes), len(nodes))
+            elif gotD != wantD or gotB or gotU != wantU:
+                why = "MAG edges directed %s bidirected %s undirected %s; expected directed %s" % (
+                    sorted(gotD), sorted(map(sorted, gotB)), sorted(map(sorted, gotU)), sorted(wantD))
+        except C.CallTimeout:
+            why = None
+        except BaseException as e:
+            why = "raised %s" % type(e).__name__
+        yield name, why
+
+
 def run(ctx):
+    for _name, _why in stress():
+        ctx["ev"].count("stress:" + _name + (":ok" if _why is None else ":BAD"))
+        if _why is not None:
+            ctx["out"].violation({"kind": "stress", "name": _name},
+                                 {"kind": "dag_to_mag on a large input", "detail": _why, "input": "see harness/c06.py stress()"})
     import time
     ev = ctx["ev"]
     ev.rule = ("inducing_path: every acyclic ADMG on 2-3 nodes (thorough: 2-4) over pair states {none,->,<-,<->,->+<->,<-+<->} x every "
